@@ -65,6 +65,7 @@ func checkC10(R *Run) {
 	})
 	R.rule("skip-sends-once", "in the folder upload's item loop, on the edge where the action written to the client equals 'next file' (item already complete) no further action word is written before the next item header is read")
 	R.ruleSkipSendsOnce()
+	R.ruleAnnouncedForksSent()
 	R.ruleWalkFilterAgree()
 	R.floor("walk-filter-agree", 6)
 	R.floor("resume-skip", 1)
